@@ -9,3 +9,4 @@ pub mod lex;
 pub mod parse;
 pub mod print;
 pub mod schema;
+pub mod validate;
